@@ -205,7 +205,7 @@ struct Exec {
 }  // namespace
 
 void exec_stream(const J& plan) {
-  sa_reset(knobs_alloc(plan));
+  if (!g_task_mode) sa_reset(knobs_alloc(plan));
   Exec X; const J& kn = plan.at("knobs");
   X.buf_policy = (int)kn.getu("buf"); X.replay = kn.getu("replay") != 0; X.empty_call = kn.getu("empty_call") != 0;
   const J& jc = plan.at("conns");
@@ -256,7 +256,7 @@ void exec_stream(const J& plan) {
   }
   stat_add("nedata_waits", total_ned);
   stat_max("max_sim_time", now);
-  sa_check_integrity();
-  if (sa_live_count() != 0) fail("C08,C13", "stream-decode-leaves-memory", "blocks obtained from the allocator remain after streaming runs");
+  if (!g_task_mode) sa_check_integrity();
+  if (sa_live_count_mine() != 0) fail("C08,C13", "stream-decode-leaves-memory", "blocks obtained from the allocator remain after streaming runs");
   g_run.nontrivial = g_run.prop == "C09" ? (multi && total_ned >= 1) : (total_frag >= 1);
 }
